@@ -28,6 +28,9 @@ func randResult(rng *Rng, next *int) wResult {
 	case k < 75:
 		r.status = "fail"
 		r.backMs = rng.Intn(3)
+		if rng.Chance(20) {
+			r.backMs = 60000
+		}
 	case k < 87:
 		r.status = "repeat"
 	default:
@@ -49,8 +52,14 @@ func stepWorker(w *world, n int, rng *Rng, next *int) bool {
 	case q.at == "loop" || q.at == "afterCheck" || q.at == "afterHandler":
 		w.opGo(n)
 	case q.at == "beforeSelect":
+		if rng.Chance(10) {
+			w.opCancelDelay(n)
+		}
 		w.opSel(n, w.stopped && rng.Chance(75))
 	case q.at == "tick":
+		if rng.Chance(10) {
+			w.opCancelDelay(n)
+		}
 		w.opTickGo(n)
 	case strings.HasPrefix(q.at, "run:"):
 		if rng.Chance(12) {
@@ -278,8 +287,70 @@ func c17SelectRace(c *Case, backoff bool, tries int) {
 	c.Nontrivial = true
 }
 
+// detStep: the one enabled op of queue n's worker, handlers answer Success; false when the worker is gone.
+func detStep(w *world, n int) bool {
+	q := w.qs[n]
+	switch {
+	case q.at == "loop" || q.at == "afterCheck" || q.at == "afterHandler":
+		w.opGo(n)
+	case q.at == "beforeSelect":
+		w.opSel(n, w.stopped)
+	case q.at == "tick":
+		w.opTickGo(n)
+	case strings.HasPrefix(q.at, "run:"):
+		w.opRet(n, wResult{status: "success"})
+	default:
+		return false
+	}
+	return true
+}
+
+// c17Interleave: two queues with one task each; `mask` says which of the 14 slots belong to queue 1
+// (7 slots each: enough for a worker to take its task, run it, apply the result and go back to
+// waiting); Stop() is injected before slot `stopPos` (14 = after the last slot). Exhaustive small scope.
+func c17Interleave(c *Case, mask uint, stopPos int) {
+	if tooManyHangs(c) {
+		return
+	}
+	w := newWorld(c, fmt.Sprintf("c17x-%d", c.Idx))
+	defer w.close()
+	w.opNew(1, true)
+	w.opNew(2, true)
+	w.opStart(1)
+	w.opStart(2)
+	w.opDeliver([]delivery{{1, 11}, {2, 21}}, false, "deliver")
+	for i := 0; i < 14 && w.bad == ""; i++ {
+		if i == stopPos {
+			w.opStop()
+		}
+		n := 2
+		if mask&(1<<uint(i)) != 0 {
+			n = 1
+		}
+		detStep(w, n)
+	}
+	if !w.stopped {
+		w.opStop()
+	}
+	for i := 0; i < 12 && w.bad == ""; i++ {
+		a := detStep(w, 1)
+		b := detStep(w, 2)
+		if !a && !b {
+			break
+		}
+	}
+	if w.bad != "" {
+		c.Op("harness-timeout", "hang")
+		return
+	}
+	c.Oracle(fmt.Sprintf("terminated q=1,2 ev=%s", w.traceStr()))
+	w.oracleLog()
+	c.Nontrivial = true
+	c.Note("kind:interleave")
+}
+
 func runC17(r *Run) {
-	r.Rule = "real TaskQueueSet + started TaskQueue workers + the real ManagerEventsHandler; every worker is stepped from one yield point to the next (loop, afterCtxCheck, beforeSelect, tick, handler entry, afterHandler, exit); a case is a random schedule over 1-4 queues (deliveries through the consumer incl. absent queues, handler results Success/Fail/Repeat/Keep with head/after/tail tasks and delays, Filter from inside the handler, repeated Start, queues created/started late) with TaskQueueSet.Stop() injected at position k (quick: k random in 0..30; thorough: every k in 0..40 for 300 schedule seeds), then all workers run to exit, late deliveries and late starts follow; free-running cases (real goroutines, Stop() at a random moment while events keep arriving) check the weak form (at most one more start per queue, every worker exits, nothing after exit); one case runs the real ScheduleManager with an every-second crontab and checks that no tick arrives once Stop() has taken effect; when the stop finds a worker before the select the ticker is given time to fire so that both select cases are ready. Non-trivial = the observed event trace has >= 6 events; distinct = distinct op-line sequences."
+	r.Rule = "real TaskQueueSet + started TaskQueue workers + the real ManagerEventsHandler; every worker is stepped from one yield point to the next (loop, afterCtxCheck, beforeSelect, tick, handler entry, afterHandler, exit); a case is a random schedule over 1-4 queues (deliveries through the consumer incl. absent queues, handler results Success/Fail/Repeat/Keep with head/after/tail tasks and delays, Filter from inside the handler, repeated Start, queues created/started late) with TaskQueueSet.Stop() injected at position k (quick: k random in 0..30; thorough: every k in 0..40 for 150 schedule seeds, and exhaustively all 3432 interleavings of two workers (7 steps each) x 15 stop positions), then all workers run to exit, late deliveries and late starts follow; free-running cases (real goroutines, Stop() at a random moment while events keep arriving) check the weak form (at most one more start per queue, every worker exits, nothing after exit); one case runs the real ScheduleManager with an every-second crontab and checks that no tick arrives once Stop() has taken effect; when the stop finds a worker before the select the ticker is given time to fire so that both select cases are ready. Non-trivial = the observed event trace has >= 6 events; distinct = distinct op-line sequences."
 	r.One(0, func(c *Case, _ *Rng) {
 		c.Desc = "corpus: stop while the worker sleeps in a back-off, ticker and Done both ready at the select"
 		c17SelectRace(c, true, 40)
@@ -296,20 +367,37 @@ func runC17(r *Run) {
 			c17Cron(c)
 		})
 	}()
-	n := r.N(1200, 12000)
+	n := r.N(1200, 8000)
 	r.Cases(10, n, 0, func(c *Case, rng *Rng) {
 		c17Random(c, rng, rng.Range(0, 30))
 	})
-	r.Cases(50000, r.N(300, 4000), 0, func(c *Case, rng *Rng) { c17Free(c, rng) })
+	r.Cases(50000, r.N(300, 3000), 0, func(c *Case, rng *Rng) { c17Free(c, rng) })
 	<-cronDone
 	if r.Thorough() {
 		// every stop position for a set of schedule seeds
-		const seeds, positions = 300, 41
+		const seeds, positions = 150, 41
 		r.Cases(100000, seeds*positions, 0, func(c *Case, _ *Rng) {
 			k := c.Idx - 100000
 			rng := NewRng(r.Seed*7919 + uint64(k/positions)) // same schedule, different stop position
 			c17Random(c, rng, k%positions)
 		})
+		// exhaustive small scope: every interleaving of two workers (7 steps each) x every stop position
+		var masks []uint
+		for m := uint(0); m < 1<<14; m++ {
+			bits := 0
+			for b := m; b != 0; b &= b - 1 {
+				bits++
+			}
+			if bits == 7 {
+				masks = append(masks, m)
+			}
+		}
+		r.Cases(1000000, len(masks)*15, 0, func(c *Case, _ *Rng) {
+			k := c.Idx - 1000000
+			c17Interleave(c, masks[k/15], k%15)
+		})
+		r.Exhaust = true
+		r.Extra["exhaustive_scope"] = fmt.Sprintf("all %d interleavings of two queue workers (7 steps each, one task each) x 15 stop positions", len(masks))
 		r.Extra["stop_positions"] = fmt.Sprintf("every stop position 0..%d for %d schedule seeds", positions-1, seeds)
 	}
 }
